@@ -1,2 +1,7 @@
+import TV.Properties.C01
+import TV.Properties.C02
+import TV.Properties.C03
+import TV.Properties.C11
 import TV.Properties.C12
+import TV.Properties.C13
 import TV.Properties.C20
